@@ -108,7 +108,10 @@ func newRing(endpoints *resolver.EndpointMap[*endpointState], minRingSize, maxRi
 		// per-endpoint, these entries hash to the same value across address
 		// updates.
 		idx := 0
-		for currentHashes < targetHashes {
+		// targetHashes is accumulated in float64 and can end up slightly above the
+		// exact total (scale, at most maxRingSize): never emit more than
+		// maxRingSize entries.
+		for currentHashes < targetHashes && uint64(len(items)) < maxRingSize {
 			h := xxhash.Sum64String(epInfo.hashKey + "_" + strconv.Itoa(idx))
 			items = append(items, &ringEntry{hash: h, hashKey: epInfo.hashKey, weight: epInfo.originalWeight})
 			idx++
